@@ -106,10 +106,23 @@ VDViews(rec) ==
     ELSE IF rec.name # 1 THEN <<"drift", "dataset-name">>
     ELSE <<"ok", "dataset-views">>
 
+\* ---------------------------------------------------------------- the algorithm factory
+VFactory(rec) ==
+    IF rec.out # "ok" THEN <<"drift", "factory-fails:" \o rec.out>>
+    ELSE IF rec.all # AlgNames THEN <<"drift", "factory-get_all">>
+    ELSE IF ToSet(rec.compat) # AnyScheme \/ Len(rec.compat) # Cardinality(AnyScheme) THEN <<"drift", "factory-compatible-list">>
+    ELSE IF rec.cls # FactoryClass(rec.name) THEN <<"drift", "factory-class">>
+    ELSE IF rec.fresh # 1 THEN <<"drift", "factory-returns-shared-instance">>
+    ELSE IF rec.name \in AnyScheme /\ \E j \in DOMAIN rec.relevant : rec.relevant[j] # 1
+         THEN <<"drift", "factory-compatible-algorithm-refuses-a-scheme">>
+    ELSE IF rec.params # 1 THEN <<"drift", "factory-parameters">>
+    ELSE <<"ok", "factory">>
+
 Verdict(rec) == CASE rec.kind = "topk" -> VTopK(rec) [] rec.kind = "cviews" -> VCViews(rec)
                   [] rec.kind = "pviews" -> VPViews(rec) [] rec.kind = "elem" -> VElem(rec)
                   [] rec.kind = "fileg" -> VFileG(rec) [] rec.kind = "folder" -> VFolder(rec)
                   [] rec.kind = "select" -> VSelect(rec) [] rec.kind = "dviews" -> VDViews(rec)
+                  [] rec.kind = "factory" -> VFactory(rec)
 
 Init == i = 0 /\ verdict = <<"init", "">>
 Pick == i = 0 /\ \E j \in DOMAIN Trace : i' = j /\ verdict' = <<"pending", "">>
